@@ -162,6 +162,30 @@ CLAIMED["C19"]["text"] += (" Per-function contracts: _truncate_tokens (<= max(li
     "_now_iso_from_ctx (functions of agent, turn, slot, text / now_iso, now_ms only).")
 CLAIMED["C19"]["note"] = ("str.split/join: two documented axioms; sha256 and _normalize are uninterpreted deterministic functions; the LLM fixture "
     "adapter and the embedding are trusted; fixture files are not modelled.")
+CLAIMED.update({
+    "C06": {
+        "text": "Contract-based deductive proof of the snapshot helpers: _clamp, _round6, _edge_id (symmetric), _graph_bounds_from_cfg, "
+                "_sanitize_gel_for_write (canonical keys, the six documented fields, weight = round6(clamp(w)) or 0.0 under eps, exact "
+                "counters, input untouched; S(S(g)) = S(g)), _sanitize_gel_for_load, store export/import and their round trip, "
+                "_pick_latest_snapshot_path over an abstract directory listing (result is a listed *.json, never a sidecar or a temp name, "
+                "never raises).",
+        "note": "round(x,6) is uninterpreted with four listed trusted facts; floats are reals plus one NaN value; write_snapshot / "
+                "load_latest_snapshot end to end and the byte-for-byte fixpoint are not under contract; list-form graphs are outside the "
+                "stated input shape; 'highest snap number wins' is checked on one concrete listing only (bounded).",
+        "design": "DESIGN.md section 3 C06",
+    },
+    "C07": {
+        "text": "Bounded check (labelled bounded, not counted as proved) of the real compute_delta/_walk_diff/apply_delta/_set_path/_del_path on "
+                "symbolic JSON trees up to depth 2 x 2 keys per level (203 shape pairs in the quick tier): round trip, inputs untouched, "
+                "delta sections, delta empty iff equal; proved lemma path_codec (split(join(ks)) == ks iff no key contains '.' and the path "
+                "is non-empty; z3+cvc5 strings, unbounded). The round trip holds for dot-free non-empty keys and fails for '' / '.' keys "
+                "(two known findings with native replays).",
+        "note": "level is bounded exploration by the same symbolic semantics, not proof; keys are encoded as lists of dot-free words with "
+                "one assumption on character order; write_snapshot_auto / read_snapshot / the delta branch of load_latest_snapshot "
+                "(baseline present/missing/corrupt) are not under contract.",
+        "design": "DESIGN.md section 3 C07",
+    },
+})
 PENDING_REASON = "check not built yet (construction in progress, see DESIGN.md section 3)"
 NA = {}
 
